@@ -119,6 +119,31 @@ def one(run, model, rng):
         calls = F.calls()
         loaded = [m for m in set(sys.modules) - before if "verif_fx_" in (getattr(sys.modules[m], "__file__", "") or "")]
         mo = pelgen.model_outcome(model.call("decode_fx", bytes([1 if plugins else 0]), data, *F.model_args()))
+    if rng.random() < 0.15:
+        # the same through the command line: --skip-parser-plugins in every position relative to the mode option
+        import os
+        import tempfile
+        import cli_runner
+        tmpd = tempfile.mkdtemp(prefix="verif_c18_")
+        try:
+            path = os.path.join(tmpd, "one.pel")
+            with open(path, "wb") as f0:
+                f0.write(data)
+            for argv in (["-E", "-f", path, "-P"], ["-P", "-E", "-f", path], ["-E", "-p", tmpd, "-a", "-P"], ["-P", "-E", "-p", tmpd, "-l"]):
+                with fxm.Fixtures(fx) as F2:
+                    before2 = set(sys.modules)
+                    cli_runner.run_inproc(argv)
+                    calls2 = F2.calls()
+                    loaded2 = [m for m in set(sys.modules) - before2 if "verif_fx_" in (getattr(sys.modules[m], "__file__", "") or "")]
+                run.count("cli-skip-plugins")
+                if calls2 or loaded2:
+                    run.violation("disabled-but-imported:cli", "peltool %s: a parser module was imported or run although plug-ins are switched off: %r %r"
+                                  % (" ".join(a if a != path and a != tmpd else "<path>" for a in argv), loaded2[:3], calls2[:2]),
+                                  dict(rp, kind="S", argv=[a if a != path and a != tmpd else "<path>" for a in argv]))
+                    break
+        finally:
+            import shutil
+            shutil.rmtree(tmpd, ignore_errors=True)
     for f in fx:
         run.count("behaviour:%d" % f[2])
     run.count("plugins:%s" % plugins)
